@@ -125,6 +125,8 @@ type tr struct {
 	structs []*types.Named
 	sseen   map[*types.Named]bool
 	monadic map[*types.Func]bool
+	mutates map[*types.Func]bool
+	usedFields map[*types.Var]bool
 	// per function
 	p       *pkgInfo
 	recv    *types.Var
@@ -158,7 +160,7 @@ func main() {
 	fset := token.NewFileSet()
 	l := &loader{root: os.Args[1], mod: sp.Module, fset: fset, cache: map[string]*pkgInfo{}, std: importer.ForCompiler(fset, "source", nil)}
 	t := &tr{l: l, sp: sp, funcs: map[*types.Func]*ast.FuncDecl{}, fpkg: map[*types.Func]*pkgInfo{}, state: map[*types.Func]int{},
-		sseen: map[*types.Named]bool{}, monadic: map[*types.Func]bool{}}
+		sseen: map[*types.Named]bool{}, monadic: map[*types.Func]bool{}, mutates: map[*types.Func]bool{}}
 	defer func() {
 		if r := recover(); r != nil {
 			if u, ok := r.(unsupported); ok {
@@ -214,9 +216,47 @@ func main() {
 		fmt.Printf("import %s\n", im)
 	}
 	fmt.Printf("set_option maxRecDepth 4000\nset_option linter.unusedVariables false\nnamespace %s\n\n", sp.Namespace)
-	for _, s := range t.structs {
-		fmt.Print(t.structDecl(s))
+	// structs: dependencies first; a field of struct type is kept only if a translated function mentions it
+	t.usedFields = map[*types.Var]bool{}
+	for _, f := range t.order {
+		p := t.fpkg[f]
+		ast.Inspect(t.funcs[f], func(n ast.Node) bool {
+			if sel, ok := n.(*ast.SelectorExpr); ok {
+				if s, ok := p.info.Selections[sel]; ok && s.Kind() == types.FieldVal {
+					if v, ok := s.Obj().(*types.Var); ok {
+						t.usedFields[v] = true
+					}
+				}
+			}
+			if kv, ok := n.(*ast.KeyValueExpr); ok {
+				if id, ok := kv.Key.(*ast.Ident); ok {
+					if v, ok := p.info.Uses[id].(*types.Var); ok && v.IsField() {
+						t.usedFields[v] = true
+					}
+				}
+			}
+			return true
+		})
 	}
+	emitted := map[*types.Named]bool{}
+	var sout strings.Builder
+	var emit func(n *types.Named)
+	emit = func(n *types.Named) {
+		if emitted[n] {
+			return
+		}
+		emitted[n] = true
+		before := len(t.structs)
+		text := t.structDecl(n)
+		for _, d := range append([]*types.Named{}, t.structs[before:]...) {
+			emit(d)
+		}
+		sout.WriteString(text)
+	}
+	for i := 0; i < len(t.structs); i++ {
+		emit(t.structs[i])
+	}
+	fmt.Print(sout.String())
 	fmt.Print(body.String())
 	fmt.Printf("end %s\n", sp.Namespace)
 }
@@ -357,20 +397,95 @@ func (t *tr) addStruct(n *types.Named) {
 
 // ---------- purity ----------
 
-func (t *tr) needsMonad(f *types.Func) bool {
+// mutatesRecv: the function has a pointer receiver and assigns to it (a field, an element, through a method that does, or
+// calls one of its function fields). A pointer receiver that is only read is translated like a value receiver.
+func (t *tr) mutatesRecv(f *types.Func) bool {
+	if v, ok := t.mutates[f]; ok {
+		return v
+	}
+	t.mutates[f] = true // recursion guard: assume the worst
 	fd := t.funcs[f]
 	p := t.fpkg[f]
 	sig := f.Type().(*types.Signature)
-	if sig.Recv() != nil {
+	res := false
+	if sig.Recv() != nil && fd != nil {
 		if _, ok := sig.Recv().Type().(*types.Pointer); ok {
-			return true
+			recv := sig.Recv()
+			isRecv := func(e ast.Expr) bool {
+				for {
+					switch x := e.(type) {
+					case *ast.SelectorExpr:
+						e = x.X
+					case *ast.IndexExpr:
+						e = x.X
+					case *ast.ParenExpr:
+						e = x.X
+					case *ast.StarExpr:
+						e = x.X
+					case *ast.Ident:
+						return p.info.Uses[x] == types.Object(recv)
+					default:
+						return false
+					}
+				}
+			}
+			ast.Inspect(fd.Body, func(n ast.Node) bool {
+				switch x := n.(type) {
+				case *ast.AssignStmt:
+					for _, l := range x.Lhs {
+						if _, plain := l.(*ast.Ident); !plain && isRecv(l) {
+							res = true
+						}
+					}
+				case *ast.IncDecStmt:
+					if _, plain := x.X.(*ast.Ident); !plain && isRecv(x.X) {
+						res = true
+					}
+				case *ast.CallExpr:
+					if sel, ok := x.Fun.(*ast.SelectorExpr); ok && isRecv(sel.X) {
+						if s, ok := p.info.Selections[sel]; ok && s.Kind() == types.FieldVal {
+							res = true // call of a function field: an event in the trace
+						}
+						if g := t.callee(p, x); g != nil && t.funcs[g] != nil && t.mutatesRecv(g) {
+							res = true
+						}
+					}
+				case *ast.UnaryExpr:
+					if x.Op == token.AND && isRecv(x.X) {
+						res = true // address taken
+					}
+				}
+				return true
+			})
 		}
+	}
+	t.mutates[f] = res
+	return res
+}
+
+func (t *tr) needsMonad(f *types.Func) bool {
+	fd := t.funcs[f]
+	p := t.fpkg[f]
+	if t.mutatesRecv(f) {
+		return true
 	}
 	need := false
 	ast.Inspect(fd.Body, func(n ast.Node) bool {
 		switch x := n.(type) {
 		case *ast.IndexExpr, *ast.SliceExpr:
 			need = true
+		case *ast.BinaryExpr:
+			if x.Op == token.QUO || x.Op == token.REM {
+				if tv, ok := p.info.Types[x.Y]; !ok || tv.Value == nil {
+					need = true // a zero divisor panics
+				}
+			}
+		case *ast.AssignStmt:
+			if x.Tok == token.QUO_ASSIGN || x.Tok == token.REM_ASSIGN {
+				if tv, ok := p.info.Types[x.Rhs[0]]; !ok || tv.Value == nil {
+					need = true
+				}
+			}
 		case *ast.CallExpr:
 			if id, ok := x.Fun.(*ast.Ident); ok && id.Name == "panic" {
 				if _, isB := p.info.Uses[id].(*types.Builtin); isB {
@@ -465,6 +580,8 @@ func (t *tr) leanType(n ast.Node, ty types.Type) string {
 		}
 	case *types.Slice:
 		return "(List " + t.leanType(n, u.Elem()) + ")"
+	case *types.Array:
+		return "(List " + t.leanType(n, u.Elem()) + ")" // fixed length: see zero(); the length is not in the type
 	case *types.Struct:
 		if nm, ok := ty.(*types.Named); ok {
 			t.addStruct(nm)
@@ -503,6 +620,12 @@ func (t *tr) zero(n ast.Node, ty types.Type) string {
 		}
 	case *types.Slice:
 		return "([] : " + t.leanType(n, ty) + ")"
+	case *types.Array:
+		return fmt.Sprintf("(List.replicate %d %s)", u.Len(), t.zero(n, u.Elem()))
+	case *types.Pointer:
+		if _, ok := u.Elem().Underlying().(*types.Struct); ok {
+			return "({} : " + t.leanType(n, ty) + ")" // a nil pointer to a struct is not distinguished from the zero struct
+		}
 	case *types.Struct:
 		return "({} : " + t.leanType(n, ty) + ")"
 	case *types.Interface:
@@ -512,10 +635,23 @@ func (t *tr) zero(n ast.Node, ty types.Type) string {
 	return ""
 }
 
-func pkgShort(p *types.Package) string {
-	parts := strings.Split(p.Path(), "/")
-	return parts[len(parts)-1]
+// simpleType: integers, booleans, strings and slices / arrays of them
+func simpleType(ty types.Type) bool {
+	if _, _, ok := intInfo(ty); ok {
+		return true
+	}
+	switch u := ty.Underlying().(type) {
+	case *types.Basic:
+		return u.Kind() == types.Bool || u.Kind() == types.String
+	case *types.Slice:
+		return simpleType(u.Elem())
+	case *types.Array:
+		return simpleType(u.Elem())
+	}
+	return false
 }
+
+func pkgShort(p *types.Package) string { return p.Name() }
 
 func (t *tr) structName(n *types.Named) string { return pkgShort(n.Obj().Pkg()) + "." + n.Obj().Name() }
 
@@ -550,6 +686,10 @@ func (t *tr) structDecl(n *types.Named) string {
 				fmt.Fprintf(&ev, " (a%d : %s)", j, t.leanType(nil, pt))
 			}
 			ev.WriteString("\n")
+			continue
+		}
+		if !t.usedFields[f] && !simpleType(f.Type()) {
+			fmt.Fprintf(&sb, "  -- field %s : %s is not translated (no translated function mentions it)\n", f.Name(), f.Type())
 			continue
 		}
 		ok := true
@@ -594,7 +734,7 @@ func (t *tr) funcDecl(f *types.Func) string {
 	var params []string
 	if sig.Recv() != nil {
 		t.recv = sig.Recv()
-		_, t.recvPtr = sig.Recv().Type().(*types.Pointer)
+		t.recvPtr = t.mutatesRecv(f)
 		rn := name(t.recv.Name())
 		if t.recv.Name() == "" || t.recv.Name() == "_" {
 			rn = "self"
@@ -1184,6 +1324,14 @@ func (t *tr) callStmt(sb *strings.Builder, c *ast.CallExpr, lhs []ast.Expr, defi
 		t.block(sb, fl.Body.List, ind+"  ")
 		return true
 	}
+	// encoding/binary big-endian stores into a local slice
+	if fn := exprString(c.Fun); (fn == "binary.BigEndian.PutUint16" || fn == "binary.BigEndian.PutUint32") && lhs == nil && len(c.Args) == 2 {
+		if id, ok := c.Args[0].(*ast.Ident); ok {
+			helper := map[string]string{"binary.BigEndian.PutUint16": "Go.putU16BE", "binary.BigEndian.PutUint32": "Go.putU32BE"}[fn]
+			fmt.Fprintf(sb, "%s%s ← %s %s %s\n", ind, name(id.Name), helper, name(id.Name), t.atom(c.Args[1]))
+			return true
+		}
+	}
 	sel, isSel := c.Fun.(*ast.SelectorExpr)
 	// call of a func-typed field: an event in the trace
 	if isSel {
@@ -1230,7 +1378,7 @@ func (t *tr) callStmt(sb *strings.Builder, c *ast.CallExpr, lhs []ast.Expr, defi
 			t.fail(c, "method call on %s", exprString(sel.X))
 		}
 		recvVar = sv
-		_, ptrRecv = sig.Recv().Type().(*types.Pointer)
+		ptrRecv = t.mutatesRecv(g)
 		args = append(args, sv)
 	}
 	for _, a := range c.Args {
@@ -1394,8 +1542,37 @@ func (t *tr) expr(e ast.Expr) string {
 			}
 			return "[" + strings.Join(els, ", ") + "]"
 		}
+		if arr, ok := tv.Type.Underlying().(*types.Array); ok {
+			var els []string
+			for _, el := range x.Elts {
+				if _, kv := el.(*ast.KeyValueExpr); kv {
+					t.fail(e, "keyed array literal")
+				}
+				els = append(els, t.expr(el))
+			}
+			for int64(len(els)) < arr.Len() {
+				els = append(els, t.zero(e, arr.Elem()))
+			}
+			return "[" + strings.Join(els, ", ") + "]"
+		}
+		if _, ok := tv.Type.Underlying().(*types.Struct); ok {
+			var fs []string
+			for _, el := range x.Elts {
+				kv, ok := el.(*ast.KeyValueExpr)
+				if !ok {
+					t.fail(e, "positional struct literal")
+				}
+				fs = append(fs, name(kv.Key.(*ast.Ident).Name)+" := "+t.expr(kv.Value))
+			}
+			return "({ " + strings.Join(fs, ", ") + " } : " + t.leanType(e, tv.Type) + ")"
+		}
 		t.fail(e, "composite literal of %s", tv.Type)
 	case *ast.UnaryExpr:
+		if x.Op == token.AND {
+			if cl, ok := x.X.(*ast.CompositeLit); ok {
+				return t.expr(cl) // &T{...}: the pointer is the value (no aliasing in the translated subset)
+			}
+		}
 		switch x.Op {
 		case token.NOT:
 			return "(!" + t.boolAtom(x.X) + ")"
@@ -1425,7 +1602,9 @@ func (t *tr) expr(e ast.Expr) string {
 	case *ast.CallExpr:
 		return t.callExpr(x, tv)
 	case *ast.IndexExpr:
-		if _, ok := t.p.info.Types[x.X].Type.Underlying().(*types.Slice); !ok {
+		switch t.p.info.Types[x.X].Type.Underlying().(type) {
+		case *types.Slice, *types.Array:
+		default:
 			t.fail(e, "index into %s", t.p.info.Types[x.X].Type)
 		}
 		return fmt.Sprintf("(← Go.idx %s %s)", t.atom(x.X), t.toInt(x.Index))
@@ -1463,6 +1642,9 @@ func (t *tr) toInt(e ast.Expr) string {
 }
 
 func (t *tr) toNatCount(e ast.Expr) string {
+	if tv := t.p.info.Types[e]; tv.Value != nil && tv.Value.Kind() == constant.Int && constant.Sign(tv.Value) >= 0 {
+		return tv.Value.ExactString()
+	}
 	_, signed, _ := intInfo(t.p.info.Types[e].Type)
 	if signed {
 		return "(" + t.expr(e) + ").toNat"
@@ -1471,10 +1653,17 @@ func (t *tr) toNatCount(e ast.Expr) string {
 }
 
 func (t *tr) binary(n ast.Node, op token.Token, a, b string, ty types.Type, bty types.Type) string {
-	if (op == token.QUO || op == token.REM) && !nonzeroLit(b) {
-		t.fail(n, "division by something that is not a non-zero constant (a zero divisor panics in Go)")
-	}
 	bits, signed, ok := intInfo(ty)
+	if (op == token.QUO || op == token.REM) && !nonzeroLit(b) {
+		// a zero divisor panics in Go
+		if !ok || signed {
+			t.fail(n, "signed division by something that is not a non-zero constant")
+		}
+		if op == token.QUO {
+			return fmt.Sprintf("(← Go.divU %s %s)", a, b)
+		}
+		return fmt.Sprintf("(← Go.modU %s %s)", a, b)
+	}
 	if !ok {
 		t.fail(n, "arithmetic on %s", ty)
 	}
@@ -1676,8 +1865,8 @@ func (t *tr) callExpr(c *ast.CallExpr, tv types.TypeAndValue) string {
 	sig := g.Type().(*types.Signature)
 	var args []string
 	if sig.Recv() != nil {
-		if _, ptr := sig.Recv().Type().(*types.Pointer); ptr {
-			t.fail(c, "pointer-receiver method %s inside an expression", g.Name())
+		if t.mutatesRecv(g) {
+			t.fail(c, "receiver-mutating method %s inside an expression", g.Name())
 		}
 		args = append(args, t.atom(c.Fun.(*ast.SelectorExpr).X))
 	}
